@@ -89,12 +89,13 @@ pub fn run(c: &Case) -> Outcome {
         out.fail("inconclusive:timeout", "a socket timeout hit (machine too slow or a hang); not counted as a violation");
         return out;
     }
+    // that the connection succeeds against a conforming server is C03's statement. Here a failed connection only limits what
+    // can be observed: the positive clauses need the messages, the negative clause ("appears nowhere else") is checked on
+    // whatever was sent. A floor on completed connections guards against a vacuous pass.
+    let mut completed = true;
     match &run.connect {
         Res::Ok(()) => {}
-        Res::Err(e) => {
-            out.fail("secrets:connect-failed", format!("Connector::connect failed against a conforming server: {}; server: tls={} nla verify={:?} negotiate={:?} creds={:?}", e, run.report.tls_established, run.report.nla.verify_error, run.report.nla.negotiate_error, run.report.nla.credentials));
-            return out;
-        }
+        Res::Err(_) => completed = false,
         Res::Panic(p) => {
             fail_panic(&mut out, "Connector::connect", p);
             return out;
@@ -103,16 +104,14 @@ pub fn run(c: &Case) -> Outcome {
     for r in run.reads.iter().chain(run.shutdown.iter()) {
         match r {
             Res::Ok(()) => {}
-            Res::Err(e) => {
-                out.fail("secrets:session-failed", format!("read/shutdown failed after connect: {}", e));
-                return out;
-            }
+            Res::Err(_) => completed = false,
             Res::Panic(p) => {
                 fail_panic(&mut out, "RdpClient::read", p);
                 return out;
             }
         }
     }
+    out.label(if completed { "completed" } else { "connection-failed" });
     let rep = &run.report;
     // negotiation request flags
     match &rep.cr {
@@ -151,15 +150,44 @@ pub fn run(c: &Case) -> Outcome {
                 }
             }
             other => {
-                out.fail("secrets:tscredentials-missing", format!("{:?}; verify error {:?}", other, rep.nla.verify_error));
-                return out;
+                if completed {
+                    out.fail("secrets:tscredentials-missing", format!("{:?}; verify error {:?}", other, rep.nla.verify_error));
+                    return out;
+                }
             }
         }
     }
     let server = match &rep.server {
         Some(s) => s,
         None => {
-            out.fail("secrets:no-rdp-phase", "the RDP phase was not reached");
+            if completed {
+                out.fail("secrets:no-rdp-phase", "the RDP phase was not reached");
+                return out;
+            }
+            // nothing but the NLA messages to look at
+            if searchable(&c.cfg.password) {
+                let raw: Vec<u8> = run.log.iter().flat_map(|e| e.1.iter().copied()).collect();
+                for (name, n) in [("utf-8", c.cfg.password.as_bytes().to_vec()), ("utf-16le", crypto::utf16le(&c.cfg.password)), ("utf-16be", c.cfg.password.encode_utf16().flat_map(|u| [(u >> 8) as u8, u as u8]).collect())] {
+                    if find(&raw, &n) {
+                        out.fail("secrets:password-on-raw-transport", format!("the {} password occurs on the raw transport", name));
+                        return out;
+                    }
+                    for (i, t) in [&rep.nla.negotiate, &rep.nla.authenticate].iter().enumerate() {
+                        if let Some(t) = t {
+                            if find(t, &n) {
+                                out.fail("secrets:password-in-ntlm-token", format!("the {} password occurs in NTLM token #{}", name, i));
+                                return out;
+                            }
+                        }
+                    }
+                    for (i, t) in rep.nla.ts_requests.iter().enumerate().take(2) {
+                        if find(t, &n) {
+                            out.fail("secrets:password-in-tsrequest", format!("the {} password occurs in TSRequest #{}", name, i));
+                            return out;
+                        }
+                    }
+                }
+            }
             return out;
         }
     };
@@ -178,8 +206,10 @@ pub fn run(c: &Case) -> Outcome {
             }
         }
         None => {
-            out.fail("secrets:client-info-missing", format!("no well-formed Client Info; violations {:?}", server.violations));
-            return out;
+            if completed {
+                out.fail("secrets:client-info-missing", format!("no well-formed Client Info; violations {:?}", server.violations));
+                return out;
+            }
         }
     }
     // negative part
@@ -584,6 +614,8 @@ pub fn check(rep: &Report) {
     rep.require("connections", "restricted-admin", 100);
     rep.require("connections", "blank-creds", 100);
     rep.require("connections", "hash", 100);
+    rep.require("connections", "completed", 1000);
+    rep.require("option-matrix", "completed", 500);
     rep.require("option-matrix", "oem-challenge", 50);
     rep.require("option-matrix", "connector-reused", 200);
 }
